@@ -32,6 +32,7 @@ type taskInfo struct {
 	ctxSeen   []int // which context the executor was handed: 0 pool, k user, -1 unknown
 	received  []string
 	ctxid     int
+	nilexec   bool // submitted WITHOUT an executor (legal): accepted, never "executed", one {nil, nil} result
 	submitted bool
 }
 
@@ -119,6 +120,9 @@ func (in *inst) resString(id int, r *wp.TaskResult) string {
 	if v, ok := r.Result.(int64); ok {
 		return fmt.Sprintf("v%d", v)
 	}
+	if ti := in.tasks[id]; ti != nil && ti.nilexec && r.Result == nil {
+		return "vnil"
+	}
 	return "v?"
 }
 
@@ -132,7 +136,12 @@ func (in *inst) Exec(t int, op vdrv.Op) string {
 		if ti.ctxid > 0 {
 			ctx = in.ctxs[ti.ctxid]
 		}
-		ti.task = wp.NewTask(ctx, in.executor(id, int(op.Arg(2))))
+		if op.Arg(2) == 99 {
+			ti.nilexec = true
+			ti.task = wp.NewTask(ctx, nil)
+		} else {
+			ti.task = wp.NewTask(ctx, in.executor(id, int(op.Arg(2))))
+		}
 		ti.submitted = true
 		if op.Name == "D" {
 			in.p.Do(ti.task)
@@ -301,7 +310,7 @@ func newInst(s *vdrv.Scenario) vdrv.Instance {
 		root, rootCancel = vcontext.WithCancel(vcontext.Background())
 		in.cancels[0] = rootCancel
 	}
-	in.p = wp.NewPool(root, wp.Option{NumberWorker: rawWorkers, ExpandableLimit: int32(rawLimit), DisableAutoStart: s.OptInt("autostart", 1) == 0})
+	in.p = wp.NewPool(root, wp.Option{NumberWorker: rawWorkers, ExpandableLimit: int32(rawLimit), ExpandedLifetime: vtime.Duration(s.OptInt("lifetime", 0)), DisableAutoStart: s.OptInt("autostart", 1) == 0})
 	in.poolCtx = in.p.VerifCtx()
 	current = in
 	return in
@@ -400,6 +409,21 @@ func monitor(s *vdrv.Scenario, h *vdrv.History, fin string, aborted string) stri
 		if finParts[id] != "" {
 			results = append(results, strings.Split(finParts[id], "+")...)
 		}
+		if ti.nilexec {
+			// a task without an executor: nothing to run, but its waiter gets exactly one result all the same
+			if len(results) > 1 {
+				return fmt.Sprintf("task %d delivered %d results (%v)", id, len(results), results)
+			}
+			for _, r := range results {
+				if r != "vnil" && r != "ec" {
+					return fmt.Sprintf("task %d (no executor) delivered result %s, not the empty result", id, r)
+				}
+			}
+			if stopped && accepted[id] && len(results) == 0 {
+				return fmt.Sprintf("task %d was submitted, Stop has returned, and its waiter is never released (no execution result, no context error)", id)
+			}
+			continue
+		}
 		if len(ti.begins) > 1 {
 			return fmt.Sprintf("task %d was executed %d times", id, len(ti.begins))
 		}
@@ -463,6 +487,9 @@ func monitor(s *vdrv.Scenario, h *vdrv.History, fin string, aborted string) stri
 				continue
 			}
 			ti := in.tasks[id]
+			if ti.nilexec {
+				continue // no executor: when a worker took it cannot be observed
+			}
 			hasCtxErr := false
 			for _, r := range ti.received {
 				if r == "ec" {
@@ -524,6 +551,9 @@ func monitor(s *vdrv.Scenario, h *vdrv.History, fin string, aborted string) stri
 				id := int(c.op.Arg(0))
 				if c.done && accepted[id] && c.ret <= stops[0].inv && (c.op.Name == "D" || c.op.Name == "E" || c.op.Name == "T" || c.op.Name == "Y") {
 					ti := in.tasks[id]
+					if ti.nilexec {
+						continue
+					}
 					okDone := len(ti.ends) == 1 && ti.ends[0] <= stops[0].ret
 					ctxErr := finParts[id] == "ec"
 					for _, r := range ti.received {
